@@ -113,6 +113,18 @@ def programs(tier):
                     out.append(("vbin", op, v, E))
                     out.append(("vrbin", op, E, v))
                 out.append(("vsum", ("vbin", "*", ("vbin", "+", v, w), E)))
+        # vector power / elementwise-function nodes used as OPERANDS (they are their own node classes, not VectorExpression):
+        # nested powers, arithmetic with vectors / scalars / arrays on either side, reductions
+        for P in (("vpow", v, 2), ("vpow", v, 3), ("vun", "sin", v), ("vpow", ("slice", v, None, None, -1), 2)):
+            for ex in (0.5, 1.5, 2, 3, S("c")):
+                if P[0] == "vpow":
+                    out += [("vpow", P, ex), ("vsum", ("vpow", P, ex))]
+            for op in ("+", "-", "*", "/"):
+                out += [("vbin", op, P, w), ("vbin", op, w, P), ("vbin", op, P, ("sc", S("c"))), ("vrbin", op, ("sc", 2.0), P), ("vbin", op, P, arr), ("vrbin", op, arr, P),
+                        ("vbin", op, P, ("vpow", w, 2))]
+            # (dot / norm / c @ P / f(P) with such a node raise AttributeError / TypeError: an explicit rejection of an operand
+            #  kind the API does not offer there, not a silent wrong value - not part of the family)
+            out += [("vneg", P), ("vsum", ("vbin", "*", P, v)), ("velem", P, 0), ("velem", ("vbin", "*", P, w), -1)]
         out += [("vneg", v), ("vneg", ("vbin", "+", v, w)), ("vpow", v, 2), ("vpow", v, 3), ("vpow", v, 0.5), ("vpow", v, S("c"))]
         for op in K.R.VEC_UNARY:
             out.append(("vun", op, v))
